@@ -122,6 +122,11 @@ func genCase(seed int64, index int, tier string) (*spec.Case, *Plan, error) {
 	}
 	pl.Cdi = r.Float64() < 0.2
 	c.Cycles = pl.Cycles
+	if (index/7)%4 == 0 {
+		// the default node pool of a sharded deployment: the label key is configured, the value is empty (objects
+		// without the label belong to this scheduler; what it creates must not fall out of its own selector)
+		c.Config.NodePoolKey, c.Config.NodePoolValue = "kai.scheduler/node-pool", ""
+	}
 
 	// a pod the admission webhook rejects never reaches the scheduler: it is dropped together with its request
 	var kept []*v1.Pod
